@@ -681,6 +681,14 @@ func FaultTable() []FaultRow {
 		return &Op{K: "CacheUnregisterTwice", Slot: ip(Pick(g.R, sortedSlots(g.S.regs)))}
 	})
 
+	add("cache.stale.Unregister", true, func(g *Gen) *Op {
+		// a handle that was unregistered earlier, possibly many operations and registrations ago
+		if len(g.S.stale) == 0 {
+			return nil
+		}
+		return &Op{K: "CacheUnregisterStale", ID: g.R.Intn(len(g.S.stale))}
+	})
+
 	// ---- type limit
 	add("limit.component", true, func(g *Gen) *Op {
 		if len(g.S.IDs) < ecs.MaskTotalBits {
@@ -810,7 +818,8 @@ func caseC10(c *Ctx) {
 	p := DefaultProfile()
 	p.Steps = 150
 	p.Zero("RegisterType")
-	p.W["CacheRegister"] = 4
+	p.W["CacheRegister"] = 5
+	p.W["CacheUnregister"] = 4
 	p.W["ResRegister"], p.W["ResAdd"], p.W["ResRemove"] = 2, 3, 2
 	s := NewSess(cfg, Opts{Model: true, Sweep: c.Case%2 == 0, Inv: true, Ledger: true, Track: true, NoTrans: true})
 	if c.Mode == "limit" {
